@@ -1,9 +1,9 @@
 package wire
 
 import (
-	"errors"
 	"bufio"
 	"bytes"
+	"errors"
 	"fmt"
 	"io"
 	"reflect"
@@ -170,6 +170,9 @@ type result struct {
 
 // readAll drains a reader built over cr; the harness owns the bufio.Reader so it can measure
 // what each call consumed. It stops at the first error that is not a frame.ReadError and returns it.
+// readAllHook, when set, runs before every Read of readAll (a test's way of touching the reader between calls).
+var readAllHook func(rd *frame.Reader, call int)
+
 func readAll(cr *chunkReader, drw *dialect.ReadWriter, key *frame.V2Key, maxCalls int) ([]result, error, error) {
 	br := bufio.NewReaderSize(cr, readBufSize)
 	rd := &frame.Reader{BufByteReader: br, DialectRW: drw, InKey: key}
@@ -181,6 +184,9 @@ func readAll(cr *chunkReader, drw *dialect.ReadWriter, key *frame.V2Key, maxCall
 	for calls := 0; ; calls++ {
 		if calls > maxCalls {
 			return out, nil, fmt.Errorf("more than %d calls without exhausting the stream", maxCalls)
+		}
+		if readAllHook != nil {
+			readAllHook(rd, calls)
 		}
 		fr, err := safeRead(rd)
 		now := cr.drawn - br.Buffered()
